@@ -250,6 +250,12 @@ def static_claims(ctx, e, info):
     ]
     names = ['processes+steps', 'topology', 'flow']
     bad = '+'.join(n for n, ok in zip(names, published) if not ok)
+    both = sorted(set(lm(e.processes)) & set(lm(e.steps)))
+    if both and not published[0]:
+        # one path published under processes AND under steps (with two
+        # different objects): its own signature
+        bad = 'path-under-processes-and-steps'
+
     ctx.claim('C10.published', all(published), sig='published:' + bad,
               info=lambda: dict(published=sorted(map(str, pub)),
                                 hierarchy=sorted(map(str, sp)),
